@@ -539,6 +539,14 @@ package composite
 //@   invariant [C01:references-stay-persisted-while-applying] refsPersisted && gcDone && observedOK && pipelineOK && !sawFatal
 //@   invariant [C05:every-desired-resource-visited-is-reported] len(resources) == nvisited
 //@ ensures [C05:every-desired-resource-is-reported-applied-or-not] err == nil ==> len(result.Composed) == len(desired)
+// the XR's explicit readiness is read from the desired state the LAST step returned (an earlier
+// step's opinion that the last step did not carry over is gone), and from nowhere when there is
+// no step
+//@ macro FINALREADY(p) = ite(steps > 0 && p != nil && p.Desired != nil && p.Desired.Composite != nil, p.Desired.Composite.Ready, fnv1.Ready_READY_UNSPECIFIED)
+//@ ensures [C05:composite-readiness-is-what-the-final-desired-state-says] err == nil ==>
+//@      (FINALREADY($prevRsp) == fnv1.Ready_READY_TRUE ==> result.Composite.Ready != nil && *result.Composite.Ready)
+//@   && (FINALREADY($prevRsp) == fnv1.Ready_READY_FALSE ==> result.Composite.Ready != nil && !*result.Composite.Ready)
+//@   && (FINALREADY($prevRsp) != fnv1.Ready_READY_TRUE && FINALREADY($prevRsp) != fnv1.Ready_READY_FALSE ==> result.Composite.Ready == nil)
 //@ site (composite.ComposedResourceGarbageCollector).GarbageCollectComposedResources(_, _, $owner, $obs, $des)
 //@   assert [C03:garbage-collection-only-after-a-clean-pipeline] observedOK && pipelineOK && !sawFatal
 //@   assert [C03:garbage-collection-compares-observed-with-final-desired] $owner == xr && $obs == $observed && $des == desired
